@@ -103,6 +103,9 @@ func (m *model) sample(lvl int, now int64) bool {
 		return m.count%uint64(m.s.N) == 1 // call i (1-based) admitted iff i mod N == 1
 	case "burst":
 		if m.s.Burst > 0 && m.s.Period > 0 {
+			if modelClockHook != nil {
+				modelClockHook() // the real sampler reads the clock here, first thing
+			}
 			if !m.opened || now >= m.windowE {
 				if m.opened {
 					m.crossed = true
@@ -153,6 +156,10 @@ func (m *model) nontrivial() bool {
 type Call struct {
 	Lvl int   `json:"lvl"`
 	Now int64 `json:"now"`
+	// Nested: the program's TimestampFunc itself samples once (it logs through a logger that shares
+	// the sampler) before it returns this call's reading: a complete Sample call, with its own clock
+	// reading, that happens inside the outer one and therefore before the outer one's decision
+	Nested *Call `json:"nested,omitempty"`
 }
 
 type Case struct {
@@ -162,20 +169,61 @@ type Case struct {
 
 var clock int64
 
+// re-entrant clock: what the next clock reading triggers on the real sampler / on the model
+var (
+	pendingNested  *Call
+	nestedSampler  zerolog.Sampler
+	nestedGot      bool
+	nestedRan      bool
+	modelClockHook func()
+)
+
 func init() {
-	zerolog.TimestampFunc = func() time.Time { return time.Unix(0, clock) }
+	zerolog.TimestampFunc = func() time.Time {
+		if n := pendingNested; n != nil {
+			pendingNested = nil
+			saved := clock
+			clock = n.Now
+			nestedGot, nestedRan = nestedSampler.Sample(zerolog.Level(n.Lvl)), true
+			clock = saved
+		}
+		return time.Unix(0, clock)
+	}
 }
 
 // runBare applies the history to the real sampler and the model.
 func runBare(c *Case) (string, bool) {
 	real := build(c.Spec)
 	m := newModel(c.Spec)
+	nestedSampler = real
+	defer func() { pendingNested, modelClockHook = nil, nil }()
 	for i, call := range c.Calls {
 		clock = call.Now
+		pendingNested, nestedRan = call.Nested, false
 		got := real.Sample(zerolog.Level(call.Lvl))
+		pendingNested = nil
+		ranReal, gotNested := nestedRan, nestedGot
+		ranModel, wantNested := false, false
+		if n := call.Nested; n != nil {
+			pendingM := n
+			modelClockHook = func() {
+				if pendingM != nil {
+					x := pendingM
+					pendingM = nil
+					wantNested, ranModel = m.sample(x.Lvl, x.Now), true
+				}
+			}
+		}
 		want := m.sample(call.Lvl, call.Now)
+		modelClockHook = nil
+		if ranReal != ranModel {
+			return fmt.Sprintf("HARNESS-ERROR: call %d: the real sampler read the clock: %v, the model: %v", i, ranReal, ranModel), m.nontrivial()
+		}
+		if ranReal && gotNested != wantNested {
+			return fmt.Sprintf("call %d: the Sample call made from inside TimestampFunc (level %d, now %d) returned %v, model %v", i, call.Nested.Lvl, call.Nested.Now, gotNested, wantNested), m.nontrivial()
+		}
 		if got != want {
-			return fmt.Sprintf("call %d (level %d, now %d): sampler returned %v, model %v", i, call.Lvl, call.Now, got, want), m.nontrivial()
+			return fmt.Sprintf("call %d (level %d, now %d, nested call: %v): sampler returned %v, model %v", i, call.Lvl, call.Now, call.Nested != nil, got, want), m.nontrivial()
 		}
 	}
 	return "", m.nontrivial()
@@ -236,7 +284,7 @@ func TestExhaustiveBurst(t *testing.T) {
 	}
 	rec.Bulk(n, nt, "burst-exhaustive")
 	rec.Exhaustive(fmt.Sprintf("all call histories up to length %d over a 7-tick clock alphabet x Burst 0..3 x Period 0..3 steps x 6 NextSamplers (shard %d/%d)", maxLen, sh, nsh))
-	rec.Sample(Case{&Spec{Kind: "burst", Burst: 2, Period: 20, Next: &Spec{Kind: "basic", N: 2}}, []Call{{1, 0}, {1, 5}, {1, 5}, {1, 20}, {1, 15}}})
+	rec.Sample(Case{&Spec{Kind: "burst", Burst: 2, Period: 20, Next: &Spec{Kind: "basic", N: 2}}, []Call{{Lvl: 1, Now: 0}, {Lvl: 1, Now: 5}, {Lvl: 1, Now: 5}, {Lvl: 1, Now: 20}, {Lvl: 1, Now: 15}}})
 }
 
 func TestExhaustiveBasic(t *testing.T) {
@@ -308,6 +356,13 @@ func genCalls(rt *rapid.T, maxLen int) []Call {
 			now += rapid.Int64Range(0, 100).Draw(rt, "fwd")
 		}
 		calls[i] = Call{Lvl: rapid.SampledFrom([]int{-1, 0, 1, 2, 3, 4, 5, 6, 9, -3}).Draw(rt, "lvl"), Now: now}
+		if rapid.IntRange(0, 9).Draw(rt, "nested") == 0 {
+			nn := now + rapid.Int64Range(-20, 40).Draw(rt, "nestednow")
+			if nn < 0 {
+				nn = 0
+			}
+			calls[i].Nested = &Call{Lvl: rapid.SampledFrom([]int{-1, 0, 1, 2, 3}).Draw(rt, "nestedlvl"), Now: nn}
+		}
 	}
 	return calls
 }
